@@ -366,6 +366,27 @@ static Oracle solve(const Scene &s) {
     return o;
 }
 
+// Every node the search pops (bestNode) is reported by the library's own DebugHandler::updateCurrentSearchPath
+// (compiled in: asserts on, no NDEBUG) with the points of its prevNode chain.  The tap records, for the searches of
+// the judged connector, the point of each popped node and of its previous node: the expansion order of the real
+// A*, which the driver compares with the DONE list of the Lean model.
+struct PopTap : public Avoid::DebugHandler {
+    Avoid::Point src, tar;             // end points of the judged connector (no other connector shares both)
+    bool active;
+    std::vector<double> pops;          // per pop: x y hasPrev px py
+    PopTap() : active(false) {}
+    void beginningSearchWithEndpoints(Avoid::VertInf *s, Avoid::VertInf *t) override {
+        active = (s->point == src && t->point == tar);
+        if (active) pops.clear();
+    }
+    void updateCurrentSearchPath(Avoid::PolyLine p) override {
+        if (!active || p.size() == 0) return;
+        pops.push_back(p.ps[0].x); pops.push_back(p.ps[0].y);
+        if (p.size() > 1) { pops.push_back(1); pops.push_back(p.ps[1].x); pops.push_back(p.ps[1].y); }
+        else { pops.push_back(0); pops.push_back(0); pops.push_back(0); }
+    }
+};
+static PopTap *g_tap = nullptr;
 static long g_astarEvery = 1;          // thorough tier: raw graph dump for every 2nd case only (keeps the run inside its budget)
 static long g_caseIdx = 0;
 static void dumpGraphRaw(Router *router, ConnRef *conn);
@@ -404,12 +425,15 @@ static void runScene(long k, const char *tag, const Scene &s) {
         ConnRef *oc = new ConnRef(router, ConnEnd(Point(c.x0, c.y0)), ConnEnd(Point(c.x1, c.y1)));
         oc->setRoutingType(ConnType_Orthogonal);
     }
+    PopTap tap; tap.src = Point(s.sx, s.sy); tap.tar = Point(s.tx, s.ty);
+    router->setDebugHandler(&tap); g_tap = &tap;
     router->processTransaction();
     printPoly("route", conn->route());
     printPoly("display", conn->displayRoute());
     printAStarHook(conn);
     fflush(stdout);
     dumpGraphRaw(router, conn);
+    g_tap = nullptr; router->setDebugHandler(nullptr);
     delete router;
     vh::endCase();
 }
@@ -658,6 +682,11 @@ static void dumpGraphRaw(Router *router, ConnRef *conn) {
     }
     t += "\n";
     ap(t, "ags %d %d\n", id[conn->src()], id[conn->dst()]);
+    if (g_tap) {
+        t += "apop";
+        for (size_t i = 0; i < g_tap->pops.size(); ++i) ap(t, " %s", H(g_tap->pops[i]).c_str());
+        t += "\n";
+    }
     fputs(t.c_str(), stdout);
 }
 
@@ -753,6 +782,8 @@ static void runSceneVG(long k, const char *strictTag, const char *lossyTag, cons
     printf("src %s %s %u\ndst %s %s %u\n", H(s.sx).c_str(), H(s.sy).c_str(), s.smask, H(s.tx).c_str(), H(s.ty).c_str(), s.tmask);
     fflush(stdout);
     ConnRef *conn = nullptr; Router *router = buildRouter(s, conn);
+    PopTap tap; tap.src = Point(s.sx, s.sy); tap.tar = Point(s.tx, s.ty);
+    router->setDebugHandler(&tap); g_tap = &tap;
     router->processTransaction();
     printPoly("route", conn->route());
     printPoly("display", conn->displayRoute());
@@ -761,6 +792,7 @@ static void runSceneVG(long k, const char *strictTag, const char *lossyTag, cons
     VGOut o = analyseGraph(router, conn, s.pen);
     fputs(o.text.c_str(), stdout);
     dumpGraphRaw(router, conn);
+    g_tap = nullptr; router->setDebugHandler(nullptr);
     delete router;
     vh::endCase();
 }
